@@ -64,6 +64,8 @@ def ex(e):
     if k == 'struct':
         return '%s.{ %s }' % (e[1], ', '.join('%s = %s' % (n, ex(v)) for n, v in e[2]))
     if k == 'array':
+        if isinstance(e[1], tuple) and e[1][0] == 'opt':      # `?T.[..]` is not a type prefix: the annotation gives the type
+            return '.[%s]' % ', '.join(ex(v) for v in e[2])
         return '%s.[%s]' % (ty_src(e[1]), ', '.join(ex(v) for v in e[2]))
     if k == 'nil':
         return 'nil'
@@ -443,6 +445,9 @@ class Interp:
     def expr(self, e, env, want):
         want = self.norm_ty(want)
         k = e[0]
+        if isinstance(want, tuple) and want[0] == 'opt' and k != 'nil':
+            # a payload-typed expression where an optional is expected: evaluate at the payload type, then wrap
+            return self.coerce(self.expr(e, env, want[1]), want)
         if k == 'int':
             bits, signed = INTS[e[2]]
             return self.coerce(ival(bits, signed, BV(e[1], bits)), want)
@@ -524,12 +529,36 @@ class Interp:
                 raise
         raise RefError('expression ' + k)
 
+    def agg_eq(self, a, b):
+        if a[0] == 'i':
+            if (a[1], a[2]) != (b[1], b[2]):
+                raise RefError('member types differ')
+            return a[3] == b[3]
+        if a[0] == 'b':
+            return a[1] == b[1]
+        if a[0] == 's':
+            if a[1] != b[1]:
+                raise RefError('struct types differ')
+            return z3.And(*[self.agg_eq(a[2][k], b[2][k]) for k in a[2]])
+        if a[0] == 'a':
+            if len(a[1]) != len(b[1]):
+                raise RefError('array lengths differ')
+            return z3.And(*[self.agg_eq(x, y) for x, y in zip(a[1], b[1])])
+        if a[0] == 'o':
+            return z3.And(a[1] == b[1], z3.Implies(a[1], self.agg_eq(a[2], b[2])))
+        raise RefError('equality of ' + a[0])
+
     def binop(self, op, a, b):
         if a[0] == 'b' and b[0] == 'b':
             r = {'and': z3.And(a[1], b[1]), 'or': z3.Or(a[1], b[1]), 'eq': a[1] == b[1], 'ne': a[1] != b[1]}.get(op)
             if r is None:
                 raise RefError('bool op ' + op)
             return ('b', z3.simplify(r))
+        if op in ('eq', 'ne') and a[0] in ('s', 'a', 'o') and a[0] == b[0]:
+            # README "Equality Comparison: all types other than pointers, slices and any": aggregates are equal when all
+            # their members are; optionals when both are nil or both hold equal payloads
+            r = self.agg_eq(a, b)
+            return ('b', z3.simplify(r if op == 'eq' else z3.Not(r)))
         if a[0] != 'i' or b[0] != 'i':
             raise RefError('operands of ' + op)
         # the common type: the wider one; an unsigned operand fits a strictly wider signed one
